@@ -46,7 +46,8 @@ seq_t dtw_distance{{ suffix }}{{ suffix2 }}(seq_t *s1, idx_t l1,
     idx_t dl;
     // DTWPruned
     idx_t sc = 0;
-    idx_t ec = 0;
+    // The border row is zero up to psi_2b: pruning cannot stop a row before that column
+    idx_t ec = settings->psi_2b;
     bool smaller_found;
     idx_t ec_next;
     // signal(SIGINT, dtw_int_handler); // not compatible with OMP
@@ -188,6 +189,10 @@ seq_t dtw_distance{{ suffix }}{{ suffix2 }}(seq_t *s1, idx_t l1,
         // }
         skip = skip * (length != l2 + 1);
         // PrunedDTW
+        if (i <= settings->psi_1b) {
+            // A path can still start in the (zero) border column
+            sc = 0;
+        }
         if (sc > maxj) {
             #ifdef DTWDEBUG
             printf("correct maxj to sc: %zu -> %zu (saved %zu computations)\n", maxj, sc, sc-maxj);
